@@ -9,7 +9,7 @@ BIN=$(rustc +nightly --print sysroot)/lib/rustlib/x86_64-unknown-linux-gnu/bin
 export CARGO_NET_OFFLINE=true CARGO_TARGET_DIR=$S/target RUSTFLAGS="-C instrument-coverage" LLVM_PROFILE_FILE=$S/prof/build_%p.profraw
 ( cd /verif/harness && cargo +nightly build --release --offline 2>&1 | tail -2 )
 H=$S/target/release/ipt_harness
-units="angle civil jd astro top raw adj extlat imsaak h2t ptdt params hijri daterange qibla fmt1 qtext bounded f64cmp parse"
+units="angle civil jd astro top raw adj extlat imsaak h2t ptdt params hijri daterange rng qibla fmt1 qtext bounded f64cmp parse"
 for u in $units; do LLVM_PROFILE_FILE=$S/prof/u_$u.profraw $H corr $u quick 1 > /dev/null 2>&1; done
 IPT_BIN=/verif/build/repo-target/release/islamic_prayer_times LLVM_PROFILE_FILE=$S/prof/u_cli.profraw $H corr cli quick 1 > /dev/null 2>&1
 for p in C01 C02 C03 C04 C05 C06 C07 C08 C09 C10 C11 C12 C13 C14 C15 C16 C17 C18 C20; do
